@@ -1,12 +1,14 @@
 use crate::ctx::Ctx;
 
 pub mod c03;
+pub mod c09;
 pub mod c14;
 pub mod c17;
 
 pub fn run(prop: &str, ctx: &mut Ctx) -> bool {
     match prop {
         "C03" => c03::run(ctx),
+        "C09" => c09::run(ctx),
         "C14" => c14::run(ctx),
         "C17" => c17::run(ctx),
         _ => return false,
